@@ -29,6 +29,9 @@ type AV = ref.AV
 func NullAV() AV { return AV{Null: true} }
 
 // Rep describes the Go representation of one node.
+var zones = []*time.Location{time.UTC, time.FixedZone("p1", 3600), time.FixedZone("m5", -5*3600), time.FixedZone("p545", 5*3600+45*60),
+	time.FixedZone("p14", 14*3600), time.FixedZone("m12", -12*3600), time.FixedZone("p930", 9*3600+30*60)}
+
 type Rep struct {
 	Kind   string   // see repKinds below
 	Ptr    bool     // declared as pointer to the base type (nillable)
@@ -794,14 +797,17 @@ func toGoBase(av AV, dt datatype.DataType, r *Rep) reflect.Value {
 		copy(u[:], av.Bytes)
 		out.Set(reflect.ValueOf(u))
 	case "time":
+		// the same instant is presented in a location that depends on the value ("all time.Time values are normalized to
+		// UTC before encoding"): UTC and six fixed zones, among them +14:00, -12:00 and two with minute offsets
+		loc := zones[int(floorMod(av.Int.Int64(), int64(len(zones))))]
 		switch code {
 		case primitive.DataTypeCodeDate:
-			out.Set(reflect.ValueOf(time.Unix(av.Int.Int64()*86400, 0).UTC()))
+			out.Set(reflect.ValueOf(time.Unix(av.Int.Int64()*86400, 0).In(loc)))
 		case primitive.DataTypeCodeTime:
-			out.Set(reflect.ValueOf(time.Date(1970, 1, 1, 0, 0, 0, 0, time.UTC).Add(time.Duration(av.Int.Int64()))))
+			out.Set(reflect.ValueOf(time.Date(1970, 1, 1, 0, 0, 0, 0, time.UTC).Add(time.Duration(av.Int.Int64())).In(loc)))
 		default:
 			ms := av.Int.Int64()
-			out.Set(reflect.ValueOf(time.Unix(floorDiv(ms, 1000), floorMod(ms, 1000)*1e6).UTC()))
+			out.Set(reflect.ValueOf(time.Unix(floorDiv(ms, 1000), floorMod(ms, 1000)*1e6).In(loc)))
 		}
 	case "godur":
 		out.SetInt(av.Int.Int64())
